@@ -1,0 +1,28 @@
+// Copyright 2022-2026 Sauce Labs Inc., all rights reserved.
+//
+// This Source Code Form is subject to the terms of the Mozilla Public
+// License, v. 2.0. If a copy of the MPL was not distributed with this
+// file, You can obtain one at https://mozilla.org/MPL/2.0/.
+
+//go:build verif
+
+package mitm
+
+import (
+	"context"
+	"crypto/tls"
+)
+
+// VerifCert calls cert, the function behind GetCertificate.
+func (c *Config) VerifCert(ctx context.Context, hostname string) (*tls.Certificate, error) {
+	return c.cert(ctx, hostname)
+}
+
+// VerifCachePut stores a certificate of the caller's making under key.
+func (c *Config) VerifCachePut(key string, cert *tls.Certificate) { c.certs.Add(key, cert) }
+
+// VerifCacheGet reads the cache.
+func (c *Config) VerifCacheGet(key string) (*tls.Certificate, bool) { return c.certs.Get(key) }
+
+// VerifCacheRemove drops an entry.
+func (c *Config) VerifCacheRemove(key string) { c.certs.Remove(key) }
